@@ -18,6 +18,7 @@ import (
 	"github.com/canopy-network/canopy/fsm"
 	"github.com/canopy-network/canopy/lib"
 	"github.com/canopy-network/canopy/lib/crypto"
+	"verifharness/certsim"
 	"verifharness/sim"
 )
 
@@ -200,6 +201,8 @@ func txMode(r *sim.Rng, nStates, perState int, cw *sim.CaseWriter, outDir string
 			if e != nil {
 				panic(e)
 			}
+			trackerBefore := n.FSM.VerifSlashTrackerDigest()
+			_, _, _, _, _, eventsBefore := n.FSM.VerifSideState()
 			res := new(lib.ApplyBlockResults)
 			if aerr := n.FSM.ApplyTransactions(context.Background(), [][]byte{tx}, res, false); aerr != nil {
 				if propNo == 0 || propNo == 7 {
@@ -208,6 +211,14 @@ func txMode(r *sim.Rng, nStates, perState int, cw *sim.CaseWriter, outDir string
 				break
 			}
 			okTx := len(res.Failed) == 0
+			if !okTx && (propNo == 0 || propNo == 7) {
+				// side state that is rolled back by hand: the slash tracker's content and the pending events
+				_, _, _, _, _, eventsAfter := n.FSM.VerifSideState()
+				if after := n.FSM.VerifSlashTrackerDigest(); after != trackerBefore || eventsAfter != eventsBefore {
+					sim.Direct(outDir, map[string]any{"finding": "failed-transaction-left-trace", "kind": "slash tracker or pending events differ after a failed transaction",
+						"tracker_before": trackerBefore, "tracker_after": after, "events_before": eventsBefore, "events_after": eventsAfter})
+				}
+			}
 			post, e := sim.ScanState(n.FSM)
 			if os.Getenv("VERIF_DEBUG") != "" {
 				fmt.Fprintf(os.Stderr, "state %d case %d kind=%T ok=%v pre.maxPause=%d post.maxPause=%d pre.unstaking=%d post.unstaking=%d\n", sI, c, msg, okTx, pre.Params.MaxPauseBlocks, post.Params.MaxPauseBlocks, pre.Params.UnstakingBlocks, post.Params.UnstakingBlocks)
@@ -373,6 +384,17 @@ func main() {
 		rejectMode(r.Fork(), 1+*nChains/3, *nBlocks, *outDir)
 	}
 	w1.Close(st)
+	wCert := &sim.CaseWriter{OutDir: *outDir, Name: "c04cert", Imports: impB, CaseType: "cr_case", MFun: "cr_mismatches", VFun: fmt.Sprintf("cr_violations_for %d", *prop), PerShard: 25}
+	certsim.Run(r.Fork(), 1+*nChains/3, 6, *outDir, wCert, func(k string) {
+		if k == "case" {
+			st.Cases++
+			st.Distinct++
+			st.TxCases["certificate-results"]++
+		} else {
+			st.TxOutcome[k]++
+		}
+	})
+	wCert.Close(st)
 	wSlash.Close(st)
 	wReward.Close(st)
 	wMint.Close(st)
